@@ -20,12 +20,53 @@ import (
 )
 
 func equalName(name, other pkix.Name) bool {
-	rdn1, rdn2 := name.ToRDNSequence(), other.ToRDNSequence()
+	rdn1, rdn2 := fullRDNSequence(name), fullRDNSequence(other)
 	// quick check: if the strings don't match, they can't be equal.
 	if rdn1.String() != rdn2.String() {
 		return false
 	}
 	return equalRDNSequence(rdn1, rdn2)
+}
+
+// fullRDNSequence is ToRDNSequence extended by the attributes that
+// crypto/x509/pkix does not know. For a name obtained by parsing a certificate
+// these attributes (in particular the ISD-AS number) are only kept in Names,
+// and ToRDNSequence alone drops them, which made distinguished names that
+// differ only in the ISD-AS number compare equal.
+func fullRDNSequence(n pkix.Name) pkix.RDNSequence {
+	seq := n.ToRDNSequence()
+	for _, atv := range n.Names {
+		if knownAttribute(atv) || containsAttribute(seq, atv) {
+			continue
+		}
+		seq = append(seq, pkix.RelativeDistinguishedNameSET{atv})
+	}
+	return seq
+}
+
+// knownAttribute reports whether the attribute is one of those that pkix.Name
+// represents in a dedicated field (and that ToRDNSequence therefore emits).
+func knownAttribute(atv pkix.AttributeTypeAndValue) bool {
+	t := atv.Type
+	if len(t) != 4 || t[0] != 2 || t[1] != 5 || t[2] != 4 {
+		return false
+	}
+	switch t[3] {
+	case 3, 5, 6, 7, 8, 9, 10, 11, 17:
+		return true
+	}
+	return false
+}
+
+func containsAttribute(seq pkix.RDNSequence, atv pkix.AttributeTypeAndValue) bool {
+	for _, set := range seq {
+		for _, other := range set {
+			if atv.Type.Equal(other.Type) && reflect.DeepEqual(atv.Value, other.Value) {
+				return true
+			}
+		}
+	}
+	return false
 }
 
 func equalRDNSequence(rdn1, rdn2 pkix.RDNSequence) bool {
